@@ -363,18 +363,42 @@ def r2_episodes(ck, repo, L):
         ctrl = [(b, lab) for b, lab in cfg.control_deps(n.id) if (b, lab) in done_nodes]
         the_done, done_lab = ctrl[0] if ctrl else min(done_nodes)
 
+        # one finished episode per step whose episode ended: counted at the first episode-end branch taken after the step; branches
+        # over the same (or derived) conditions stay correlated along a path (`episode_over` tested twice)
+        from ..cfg import _idents
+        tv_, uv_ = L.pos.get(2), L.pos.get(3)
+        tracked = {tv_, uv_}
+        for _ in range(4):
+            for m in cfg.nodes:
+                if m.kind == "stmt" and isinstance(m.ast, ast.Assign) and len(m.ast.targets) == 1 and isinstance(m.ast.targets[0], ast.Name) and isinstance(m.ast.value, (ast.BoolOp, ast.UnaryOp, ast.Name)):
+                    if {x.id for x in ast.walk(m.ast.value) if isinstance(x, ast.Name)} <= tracked:
+                        tracked.add(m.ast.targets[0].id)
+        done_set = set(done_nodes)
+
         def transfer(nid, succ, lab, st):
-            d = st
-            if nid == the_done and lab is done_lab:
-                d = d + 1
+            d, lits, counted = st
+            node = cfg.nodes[nid]
+            if nid == L.step_node:
+                counted, lits = False, frozenset()
+            if node.kind == "test" and hasattr(node.ast, "test") and lab in (True, False):
+                v = cfg.eval3(node.ast.test, dict(lits), nid)
+                if v is not None and v != lab:
+                    return None
+                newl = [(k, vv) for k, vv in cfg._lits(node.ast.test, lab, nid) if _idents(k) <= tracked]
+                if any((k, not vv) in lits for k, vv in newl):
+                    return None
+                lits = lits | frozenset(newl)
+                if (nid, lab) in done_set and not counted:
+                    d, counted = d + 1, True
             ev = events.get(nid)
             if ev:
                 d = d - ev[1] if ev[0] == "inc" else -ev[1]
-            return d
+            lits = frozenset((k, vv) for k, vv in cfg.propagate(succ, lits) if _idents(k) <= tracked)
+            return (d, lits, counted)
 
         # `set` happens before the loop with zero finished episodes, so d = -k there
-        parent, problems = explore(cfg, 0, transfer, bound=lambda d: -4 <= d <= 4)
-        vals = sorted({st for (nid, st) in parent if nid == n.id})
+        parent, problems = explore(cfg, (0, frozenset(), False), transfer, bound=lambda st_: -4 <= st_[0] <= 4)
+        vals = sorted({st[0] for (nid, st) in parent if nid == n.id})
         ok2 = vals == [0] and not problems
         ck.ob("R2-episodes", site, "counter-equals-finished-episodes", ok2, f"`{epi}` at `{short(cmp)}`",
               "" if ok2 else f"finished episodes - {epi} at the test is {vals} (expected [0]): the routine stops after the wrong number of episodes", where)
@@ -859,6 +883,14 @@ def r5_budget_symbolic(ck, repo, nf: NF, qual: str, budget: str):
     ck.need(len(hdrs) == 1, f"{site}: expected one top-level while loop")
     H = hdrs[0]
     t = H.ast.test
+    # the scheduler's step counter is the variable its main loop compares with the budget (its local name does not matter)
+    if isinstance(t, ast.Compare) and len(t.ops) == 1 and isinstance(t.left, ast.Name) and dotted(t.comparators[0]) == budget:
+        G = t.left.id
+    elif isinstance(t, ast.Compare) and len(t.ops) == 1 and isinstance(t.comparators[0], ast.Name) and dotted(t.left) == budget:
+        G = t.comparators[0].id
+        t = ast.Compare(left=t.comparators[0], ops=[{ast.Gt: ast.Lt, ast.GtE: ast.LtE, ast.Lt: ast.Gt, ast.LtE: ast.GtE}.get(type(t.ops[0]), type(t.ops[0]))()], comparators=[t.left])
+    else:
+        raise AnalysisError(f"{site}: the main loop guard `{short(t)}` does not compare a counter with `{budget}` (unrecognised form)")
     ok = isinstance(t, ast.Compare) and isinstance(t.ops[0], ast.Lt) and dotted(t.left) == G and dotted(t.comparators[0]) == budget
     ck.ob("R2-budget", site, "while-guard", ok, f"while {short(t)}", "" if ok else f"scheduler loop guard is not `{G} < {budget}` (strict)", loc(mi, H.ast))
     # sub-call receives the same budget and the current counter
@@ -897,6 +929,13 @@ def r5_budget_exact(ck, repo, nf: NF, qual: str, budget: str):
     hdrs = [n for n in cfg.nodes if n.kind == "test" and isinstance(n.ast, ast.While) and not cfg.control_deps(n.id)]
     ck.need(len(hdrs) == 1, f"{site}: expected one top-level while loop")
     H = hdrs[0]
+    t_ = H.ast.test
+    if isinstance(t_, ast.Compare) and len(t_.ops) == 1 and isinstance(t_.left, ast.Name) and isinstance(t_.comparators[0], ast.Name) and budget in (t_.left.id, t_.comparators[0].id):
+        G = t_.left.id if t_.comparators[0].id == budget else t_.comparators[0].id      # the counter the loop compares with the budget
+    # per-task totals: the subscripted container that is advanced by the recorded episode lengths (its local name does not matter)
+    tcands = {dotted(m.ast.target.value) for m in cfg.nodes if m.kind == "stmt" and isinstance(m.ast, ast.AugAssign) and isinstance(m.ast.target, ast.Subscript) and dotted(m.ast.target.value)}
+    if T not in tcands and len(tcands) == 1:
+        T = next(iter(tcands))
     S = [n for n in cfg.nodes if n.kind == "stmt" and n.ast is not None and any(isinstance(c, ast.Call) and isinstance(c.func, ast.Name) and c.func.id == "train_st" for c in ast.walk(n.ast))]
     ck.need(len(S) == 1, f"{site}: expected exactly one train_st call")
     S = S[0]
